@@ -60,6 +60,9 @@ def load_findings() -> dict:
     return known
 
 
+CURRENT = None      # the Check of this process (the CLI falls back on it when the harness crashes after a violation)
+
+
 class Check:
     """Accumulates what one run of one property covered and found."""
 
@@ -74,6 +77,9 @@ class Check:
         self.drift: list[str] = []
         self.notes: list[str] = []
         self.known = load_findings()
+        self.gates: list[str] = []
+        global CURRENT
+        CURRENT = self
 
     # -- collecting -------------------------------------------------------
     def violation(self, key: str, what: str, detail: dict | None = None):
@@ -95,9 +101,11 @@ class Check:
             lst.append(s)
 
     def gate(self, cond: bool, msg: str):
-        """Vacuity / machinery gate: failing it means the check cannot judge."""
+        """Vacuity / machinery gate: failing it means the check cannot vouch for 'held'.  It is evaluated at the end:
+        a violation TLC has established on real observations stands (exit 1) even if a gate failed as well - the code
+        under test may be so broken that the corpus shrinks - whereas 'held' is never reported past a failed gate."""
         if not cond:
-            raise MachineryError(msg)
+            self.gates.append(msg)
 
     # -- finishing --------------------------------------------------------
     def finish(self) -> int:
@@ -130,6 +138,10 @@ class Check:
             if len(unknown) > 12:
                 print(f"  ... {len(unknown)} violation classes in total; replay files for the first 50 under {rdir}")
             rc = 1
+        if self.gates and not unknown:
+            raise MachineryError("; ".join(self.gates[:4]))
+        for g in self.gates:
+            self.notes.append(f"gate failed (violations are reported all the same): {g}")
         self._write_evidence(len(unknown), [k for k, _ in known_hit])
         print(f"{self.prop} {self.tier}: "
               f"{'VIOLATED' if rc else 'held'}; known-findings={len(known_hit)} "
